@@ -12,6 +12,7 @@ REGISTRY = {
     'C13': 'harness.c13',
     'C14': 'harness.c14',
     'C15': 'harness.c12',
+    'C16': 'harness.c16',
     'C18': 'harness.session',
     'C19': 'harness.c19',
     'C20': 'harness.c20',
